@@ -9,6 +9,7 @@ import (
 	"fmt"
 	"os"
 	"path/filepath"
+	"strconv"
 	"strings"
 	"sync"
 	"sync/atomic"
@@ -486,16 +487,27 @@ func realMain() {
 	var done, built int64
 	var next int64 = -1
 	var wg sync.WaitGroup
+	r.Stuck = func(in []byte) kit.V {
+		c := scase{}
+		if i, err := strconv.Atoi(string(in)); err == nil && i >= 0 && i < len(cases) {
+			c = cases[i]
+		}
+		return kit.V{Key: "update-wrong script=" + c.String(), What: fmt.Sprintf("script [%s]: the run with UpdateScripts does not return", c), Case: c}
+	}
 	for w := 0; w < r.Workers(); w++ {
 		wg.Add(1)
 		go func() {
 			defer wg.Done()
+			var wb []byte
 			for {
 				i := int(atomic.AddInt64(&next, 1))
 				if i >= len(cases) || r.Expired() {
+					r.WatchDone(w)
 					return
 				}
 				c := cases[i]
+				wb = strconv.AppendInt(wb[:0], int64(i), 10)
+				r.Watch(w, wb)
 				if c.Second != nil {
 					if v := checkBatch(root, scase{Lines: c.Lines}, scase{Lines: c.Second}, st); v != "" {
 						r.Violation("update-wrong script="+c.String(), fmt.Sprintf("scripts [%s]: %s (%s)", c, v, violClass(v)), c)
